@@ -30,6 +30,8 @@ def viol_key(v):
     w = ",".join(sorted(v.get("w", [])))
     if "sender-panic" in v.get("clauses", []):
         return "sender-panic:delta_chunks:%s" % (v.get("detail", "")[:60])
+    if "sender-no-messages" in v.get("clauses", []):
+        return "sender-no-messages:delta_chunks:data of %s part(s)" % v.get("n", "?")
     if any(c.startswith("outcome-") for c in v.get("clauses", [])):
         return "%s:%s:%s" % (clauses, v.get("k", ""), v.get("detail", "")[:80])
     return "%s:%s:%s" % (clauses, w, v.get("k", ""))
